@@ -549,6 +549,6 @@ int qsx_more_commands (const char *c)
 		free (h);
 	}
 	else if (!strcmp (c, "getfile")) { char *path = unhex (tok ()); put_file (path); free (path); }
-	else return 0;
+	else { extern int qsx_factor_commands (const char *c); return qsx_factor_commands (c); }
 	return 1;
 }
